@@ -1112,6 +1112,552 @@ def inline_method_aliases(func):
     return func
 
 
+# ------------------------------------------------------------------------------------------- loop fission over a concatenation
+
+_VIEW_FUNCS = {"zip", "repeat", "itertools.repeat", "enumerate", "list", "tuple", "range", "len", "reversed", "chain", "itertools.chain"}
+
+
+def _view_pure(e) -> bool:
+    """an expression that only re-reads its operands (names, attributes, constants, displays, zip/repeat/enumerate/.. of such):
+    evaluating it a little later, or twice, gives the same sequence as long as the names it reads are not re-bound or mutated"""
+    if isinstance(e, (ast.Name, ast.Constant)):
+        return True
+    if isinstance(e, ast.Attribute):
+        return _view_pure(e.value)
+    if isinstance(e, (ast.Tuple, ast.List)):
+        return all(_view_pure(x.value if isinstance(x, ast.Starred) else x) for x in e.elts)
+    if isinstance(e, ast.BinOp) and isinstance(e.op, ast.Add):
+        return _view_pure(e.left) and _view_pure(e.right)
+    if isinstance(e, ast.Call) and ast.unparse(e.func) in _VIEW_FUNCS and not e.keywords:
+        return all(not isinstance(a, ast.Starred) and _view_pure(a) for a in e.args)
+    return False
+
+
+def _concat_parts(e):
+    """[A, B, ..] when `e` is the concatenation chain(A, B, ..) / A + B / [*A, *B] (possibly inside list(..) / tuple(..)), else None"""
+    if isinstance(e, ast.Call) and isinstance(e.func, ast.Name) and e.func.id in ("list", "tuple") and len(e.args) == 1 and not e.keywords:
+        return _concat_parts(e.args[0])
+    if isinstance(e, ast.Call) and ast.unparse(e.func) in ("chain", "itertools.chain") and len(e.args) >= 2 and not e.keywords \
+            and not any(isinstance(a, ast.Starred) for a in e.args):
+        return list(e.args)
+    if isinstance(e, (ast.List, ast.Tuple)) and len(e.elts) >= 2 and all(isinstance(x, ast.Starred) for x in e.elts):
+        return [x.value for x in e.elts]
+    if isinstance(e, ast.BinOp) and isinstance(e.op, ast.Add):
+        l, r = _concat_parts(e.left), _concat_parts(e.right)
+        if l is not None or r is not None or all(isinstance(x, (ast.Name, ast.List, ast.ListComp, ast.Call)) for x in (e.left, e.right)):
+            return (l or [e.left]) + (r or [e.right])
+    return None
+
+
+def _own_break(stmts) -> bool:
+    """a `break` that belongs to the enclosing loop"""
+    def rec(node):
+        for ch in ast.iter_child_nodes(node):
+            if isinstance(ch, ast.Break):
+                return True
+            if isinstance(ch, (ast.For, ast.While, ast.FunctionDef, ast.Lambda, ast.ClassDef)):
+                if any(isinstance(x, ast.Break) for s_ in getattr(ch, "orelse", []) for x in ast.walk(s_)):
+                    return True
+                continue
+            if rec(ch):
+                return True
+        return False
+    return any(isinstance(s_, ast.Break) or rec(s_) for s_ in stmts)
+
+
+def split_concat_loops(func):
+    """Loop fission: `for T in chain(A, B)` (also `A + B`, `[*A, *B]`, through list()/tuple(), or through a local bound just
+    before to such an expression and not changed since) is `for T in A: BODY` followed by `for T in B: BODY` -- the iterations, their
+    order and the final binding of T are the same.  Only for operands that merely re-read names (_view_pure) which the body does
+    not re-bind or mutate, and bodies without `break` / `else`.  A signed table `changes = chain(zip(repeat("-"), R), zip(repeat("+"), P))`
+    walked by one loop then reads as the two loops it abbreviates."""
+    def block(stmts, table):
+        out = []
+        table = dict(table)
+        for st in stmts:
+            if isinstance(st, ast.For) and not st.orelse and not _own_break(st.body):
+                parts = _concat_parts(st.iter)
+                if parts is None and isinstance(st.iter, ast.Name):
+                    parts = table.get(st.iter.id)
+                elif parts is not None and not all(_view_pure(p_) for p_ in parts):
+                    parts = None
+                if parts is not None:
+                    body_st = _stored(st.body) | {n.id for n in ast.walk(st.target) if isinstance(n, ast.Name)}
+                    free = set().union(*[_loaded(p_) for p_ in parts])
+                    if not (free & body_st) and not (isinstance(st.iter, ast.Name) and st.iter.id in body_st):
+                        for p_ in parts:
+                            new = ast.For(target=copy.deepcopy(st.target), iter=copy.deepcopy(p_), body=block(copy.deepcopy(st.body), table), orelse=[],
+                                          type_comment=None)
+                            ast.copy_location(new, st)
+                            ast.fix_missing_locations(new)
+                            out.append(new)
+                        continue
+            inner_st = _stored([st])
+            surviving = {k: v for k, v in table.items() if k not in inner_st and not (set().union(*[_loaded(p_) for p_ in v]) & inner_st)}
+            for fld in ("body", "orelse", "finalbody"):
+                b = getattr(st, fld, None)
+                if isinstance(b, list) and b and isinstance(b[0], ast.stmt) and not isinstance(st, (ast.FunctionDef, ast.ClassDef, ast.AsyncFunctionDef)):
+                    setattr(st, fld, block(b, surviving))
+            if isinstance(st, ast.Try):
+                for h in st.handlers:
+                    h.body = block(h.body, surviving)
+            table = surviving if not isinstance(st, (ast.Assign, ast.AnnAssign)) else {k: v for k, v in table.items() if k in surviving}
+            if isinstance(st, ast.Assign) and len(st.targets) == 1 and isinstance(st.targets[0], ast.Name):
+                parts = _concat_parts(st.value)
+                if parts is not None and all(_view_pure(p_) for p_ in parts) and st.targets[0].id not in set().union(*[_loaded(p_) for p_ in parts]):
+                    table[st.targets[0].id] = parts
+            out.append(st)
+        return out
+    func.body = block(func.body, {})
+    return func
+
+
+# ------------------------------------------------------------------------------------- generators and records put back in place
+
+def _single_yield(callee):
+    """the one `yield E` statement of a generator that can be read as `emit(E)`: reached through for / if statements only; no
+    other yield, no `yield from`, no return, not used as an expression -> the ast.Expr node, else None"""
+    if not isinstance(callee, ast.FunctionDef) or callee.args.vararg or callee.args.kwarg or callee.args.posonlyargs:
+        return None
+    ys = [n for n in ast.walk(callee) if isinstance(n, (ast.Yield, ast.YieldFrom))]
+    if len(ys) != 1 or not isinstance(ys[0], ast.Yield) or ys[0].value is None:
+        return None
+    if any(isinstance(n, (ast.Return, ast.Global, ast.Nonlocal, ast.Await)) for n in ast.walk(callee)):
+        return None
+    found = []
+
+    def rec(stmts):
+        for st in stmts:
+            if isinstance(st, ast.Expr) and st.value is ys[0]:
+                found.append(st)
+            elif isinstance(st, (ast.For, ast.If)):
+                rec(st.body)
+                rec(st.orelse)
+    rec(callee.body)
+    return found[0] if len(found) == 1 else None
+
+
+def inline_generator_loops(func, resolve):
+    """`for T in self._gen(args): BODY`, `_gen` a generator with ONE `yield E` reached through for / if only: the generator's
+    statements with `yield E` replaced by `T = E; BODY` (parameters bound to the arguments, locals made unique) -- producer and
+    consumer run interleaved in exactly this order.  resolve(call) -> (callee, receiver | None) | None.  Refused when BODY leaves
+    its iteration early (break / continue) or the loop has an `else`."""
+    def expand(stmts, depth):
+        out = []
+        for st in stmts:
+            for fld in ("body", "orelse", "finalbody"):
+                b = getattr(st, fld, None)
+                if isinstance(b, list) and b and isinstance(b[0], ast.stmt) and not isinstance(st, (ast.FunctionDef, ast.ClassDef, ast.AsyncFunctionDef)):
+                    setattr(st, fld, expand(b, depth))
+            if isinstance(st, ast.For) and not st.orelse and isinstance(st.iter, ast.Call) and depth < 3 and not _top_level_jumps(st.body):
+                r = resolve(st.iter)
+                if r is not None and r[0] is not func and _single_yield(r[0]) is not None:
+                    res = inline_stmts(r[0], st.iter, r[1])
+                    if res is not None and res[1] is None:
+                        body = res[0]
+                        ys = [n for b in body for n in ast.walk(b) if isinstance(n, ast.Expr) and isinstance(n.value, ast.Yield)]
+                        if len(ys) == 1:
+                            bind = ast.Assign(targets=[copy.deepcopy(st.target)], value=ys[0].value.value)
+                            for n in ast.walk(bind.targets[0]):
+                                if isinstance(n, (ast.Name, ast.Tuple, ast.List, ast.Starred)):
+                                    n.ctx = ast.Store()
+
+                            class Put(ast.NodeTransformer):
+                                def visit_Expr(self, n):
+                                    return [bind] + st.body if n is ys[0] else n
+                            new = []
+                            for b in body:
+                                x = Put().visit(b)
+                                new.extend(x if isinstance(x, list) else [x])
+                            for b in new:
+                                ast.copy_location(b, st) if not hasattr(b, "lineno") else None
+                                ast.fix_missing_locations(b)
+                            out.extend(expand(new, depth + 1))
+                            continue
+            out.append(st)
+        return out
+    func.body = expand(func.body, 0)
+    return func
+
+
+def scalarise_records(func, fields_of):
+    """Scalar replacement of a record: `x = Rec(a, b, c)` (fields_of("Rec") -> its field names, in constructor order, or None) whose
+    every use is a field read `x.f` becomes `x__f1 = a; x__f2 = b; x__f3 = c`, and `x.f` the local `x__f`.  A namedtuple / dataclass
+    that only carries values from a producer to a consumer then disappears, and the values are followed as before."""
+    cands = {}
+    for n in ast.walk(func):
+        if isinstance(n, ast.Assign) and len(n.targets) == 1 and isinstance(n.targets[0], ast.Name) and isinstance(n.value, ast.Call) \
+                and isinstance(n.value.func, (ast.Name, ast.Attribute)):
+            fields = fields_of(ast.unparse(n.value.func))
+            if fields:
+                cands.setdefault(n.targets[0].id, []).append((n, fields))
+    if not cands:
+        return func
+    parent_attr = {}
+    for n in ast.walk(func):
+        if isinstance(n, ast.Attribute) and isinstance(n.value, ast.Name):
+            parent_attr[id(n.value)] = n
+    for n in ast.walk(func):
+        if isinstance(n, ast.Name) and n.id in cands:
+            if isinstance(n.ctx, ast.Load):
+                a = parent_attr.get(id(n))
+                if a is None or not isinstance(a.ctx, ast.Load) or not all(a.attr in f for _, f in cands[n.id]):
+                    cands.pop(n.id)
+            elif not any(n is asg.targets[0] for asg, _ in cands[n.id]):
+                cands.pop(n.id)
+        elif isinstance(n, ast.arg) and n.arg in cands:
+            cands.pop(n.arg)
+    plan = {}
+    for name, lst in cands.items():
+        for asg, fields in lst:
+            c = asg.value
+            if any(isinstance(a, ast.Starred) for a in c.args) or any(k.arg is None or k.arg not in fields for k in c.keywords) or len(c.args) > len(fields):
+                plan = None
+                break
+            given = dict(zip(fields, c.args))
+            given.update({k.arg: k.value for k in c.keywords})
+            if set(given) != set(fields) or len(given) != len(c.args) + len(c.keywords):
+                plan = None
+                break
+            plan[id(asg)] = (name, [(f, given[f]) for f in list(fields[:len(c.args)]) + [k.arg for k in c.keywords]])
+        if plan is None:
+            return func
+
+    class Tr(ast.NodeTransformer):
+        def visit_Assign(self, n):
+            if id(n) in plan:
+                name, pairs = plan[id(n)]
+                out = [ast.copy_location(ast.Assign(targets=[ast.Name(id=f"{name}__{f}", ctx=ast.Store())], value=self.visit(v)), n) for f, v in pairs]
+                return [ast.fix_missing_locations(x) for x in out]
+            return self.generic_visit(n)
+
+        def visit_Attribute(self, n):
+            if isinstance(n.value, ast.Name) and n.value.id in cands and isinstance(n.ctx, ast.Load):
+                return ast.copy_location(ast.Name(id=f"{n.value.id}__{n.attr}", ctx=ast.Load()), n)
+            return self.generic_visit(n)
+    if plan:
+        func = Tr().visit(func)
+        ast.fix_missing_locations(func)
+    return func
+
+
+# ------------------------------------------------------------------------------------------ list of rows <-> row-major table
+
+def _flatten_call(e, m):
+    """is `e` the row-major flattening of the list of rows named m?  list(chain.from_iterable(m)) / list(chain(*m)) / sum(m, []) /
+    [x for r in m for x in r]"""
+    if isinstance(e, ast.Call) and isinstance(e.func, ast.Name) and e.func.id in ("list", "tuple") and len(e.args) == 1 and not e.keywords:
+        return _flatten_call(e.args[0], m) or _flatten_call_inner(e.args[0], m)
+    if isinstance(e, ast.Call) and isinstance(e.func, ast.Name) and e.func.id == "sum" and len(e.args) == 2 and not e.keywords \
+            and isinstance(e.args[0], ast.Name) and e.args[0].id == m and isinstance(e.args[1], ast.List) and not e.args[1].elts:
+        return True
+    if isinstance(e, ast.ListComp) and len(e.generators) == 2 and not any(g.ifs for g in e.generators) \
+            and isinstance(e.generators[0].iter, ast.Name) and e.generators[0].iter.id == m and isinstance(e.generators[0].target, ast.Name) \
+            and isinstance(e.generators[1].iter, ast.Name) and e.generators[1].iter.id == e.generators[0].target.id \
+            and isinstance(e.generators[1].target, ast.Name) and isinstance(e.elt, ast.Name) and e.elt.id == e.generators[1].target.id:
+        return True
+    return False
+
+
+def _flatten_call_inner(e, m):
+    if isinstance(e, ast.Call) and not e.keywords and len(e.args) == 1:
+        f = ast.unparse(e.func)
+        a = e.args[0]
+        if f in ("chain.from_iterable", "itertools.chain.from_iterable") and isinstance(a, ast.Name) and a.id == m:
+            return True
+        if f in ("chain", "itertools.chain") and isinstance(a, ast.Starred) and isinstance(a.value, ast.Name) and a.value.id == m:
+            return True
+    return False
+
+
+def flatten_row_tables(func):
+    """Change of representation put back: a local table kept as a list of rows
+
+        M = [[c] * NC for _ in range(NR)]  ...  M[a][b] (read, store, +=)  ...  r = M[a]; r[b] ...  F = list(chain.from_iterable(M))
+
+    is the row-major flat table `M = [c] * NR * NC`, `M[a * NC + b]`, `F` being `M` itself.  Applied only when EVERY use of M (and of
+    a row alias r, and the single binding of F) has one of these forms, NC is a name bound once, and M is not used after F was
+    cut from it (so that no write is lost); otherwise the function is left as it is."""
+    assigned = {}
+    for n in ast.walk(func):
+        if isinstance(n, ast.Name) and isinstance(n.ctx, (ast.Store, ast.Del)):
+            assigned[n.id] = assigned.get(n.id, 0) + 1
+    for a_ in func.args.args + func.args.kwonlyargs:
+        assigned[a_.arg] = assigned.get(a_.arg, 0) + 1
+    parent = {}
+    for n in ast.walk(func):
+        for ch in ast.iter_child_nodes(n):
+            parent[id(ch)] = n
+
+    def table_init(v):
+        """(cell, NR, NC) of `[[c] * NC for _ in range(NR)]` / `[[c for _ in range(NC)] for _ in range(NR)]`"""
+        if not (isinstance(v, ast.ListComp) and len(v.generators) == 1 and not v.generators[0].ifs and isinstance(v.generators[0].target, ast.Name)):
+            return None
+        g = v.generators[0]
+        if not (isinstance(g.iter, ast.Call) and isinstance(g.iter.func, ast.Name) and g.iter.func.id == "range" and len(g.iter.args) == 1 and not g.iter.keywords):
+            return None
+        nr, e = g.iter.args[0], v.elt
+        if isinstance(e, ast.BinOp) and isinstance(e.op, ast.Mult):
+            lst, nc = (e.left, e.right) if isinstance(e.left, ast.List) else (e.right, e.left)
+            if isinstance(lst, ast.List) and len(lst.elts) == 1 and isinstance(lst.elts[0], ast.Constant):
+                cell = lst.elts[0]
+            else:
+                return None
+        elif isinstance(e, ast.ListComp) and len(e.generators) == 1 and not e.generators[0].ifs and isinstance(e.elt, ast.Constant) \
+                and isinstance(e.generators[0].iter, ast.Call) and isinstance(e.generators[0].iter.func, ast.Name) and e.generators[0].iter.func.id == "range" \
+                and len(e.generators[0].iter.args) == 1:
+            cell, nc = e.elt, e.generators[0].iter.args[0]
+        else:
+            return None
+        if not (isinstance(nc, ast.Name) and isinstance(nr, ast.Name) and assigned.get(nc.id, 0) == 1 and assigned.get(nr.id, 0) == 1):
+            return None
+        if g.target.id in (nc.id, nr.id):
+            return None
+        return cell, nr, nc
+    for init in [n for n in ast.walk(func) if isinstance(n, ast.Assign) and len(n.targets) == 1 and isinstance(n.targets[0], ast.Name)]:
+        m = init.targets[0].id
+        t = table_init(init.value)
+        if t is None or assigned.get(m, 0) != 1:
+            continue
+        cell, nr, nc = t
+        uses = [n for n in ast.walk(func) if isinstance(n, ast.Name) and n.id == m and n is not init.targets[0]]
+        cells, aliases, flat = [], [], []
+        ok = True
+        for u in uses:
+            p1 = parent.get(id(u))
+            p2 = parent.get(id(p1)) if p1 is not None else None
+            if isinstance(p1, ast.Subscript) and p1.value is u and not isinstance(p1.slice, ast.Slice):
+                if isinstance(p2, ast.Subscript) and p2.value is p1 and not isinstance(p2.slice, ast.Slice):
+                    cells.append((p2, p1.slice, p2.slice))
+                    continue
+                if isinstance(p2, ast.Assign) and p2.value is p1 and len(p2.targets) == 1 and isinstance(p2.targets[0], ast.Name) \
+                        and assigned.get(p2.targets[0].id, 0) == 1 and isinstance(p1.ctx, ast.Load) \
+                        and all(assigned.get(x, 0) <= 1 for x in _loaded(p1.slice)):
+                    aliases.append((p2, p2.targets[0].id, p1.slice))
+                    continue
+            # the flattening statement  F = list(chain.from_iterable(M))
+            q = u
+            while id(q) in parent and not isinstance(parent[id(q)], ast.stmt):
+                q = parent[id(q)]
+            stq = parent.get(id(q))
+            if isinstance(stq, ast.Assign) and len(stq.targets) == 1 and isinstance(stq.targets[0], ast.Name) and assigned.get(stq.targets[0].id, 0) == 1 \
+                    and _flatten_call(stq.value, m) and stq in func.body:
+                flat.append(stq)
+                continue
+            ok = False
+            break
+        if not ok or len(flat) != 1 or not cells and not aliases:
+            continue
+        fst = flat[0]
+        fname = fst.targets[0].id
+        # nothing touches the rows after the flat copy was taken, the flat name is not used before it exists
+        later = func.body[func.body.index(fst) + 1:]
+        if any(isinstance(n, ast.Name) and n.id in {m} | {a[1] for a in aliases} for st in later for n in ast.walk(st)):
+            continue
+        earlier = func.body[:func.body.index(fst)]
+        if any(isinstance(n, ast.Name) and n.id == fname for st in earlier for n in ast.walk(st)):
+            continue
+        # every use of a row alias is r[b]
+        alias_cells = []
+        for asg, r, a in aliases:
+            for n in ast.walk(func):
+                if isinstance(n, ast.Name) and n.id == r and n is not asg.targets[0]:
+                    p1 = parent.get(id(n))
+                    if isinstance(p1, ast.Subscript) and p1.value is n and not isinstance(p1.slice, ast.Slice):
+                        alias_cells.append((p1, a, p1.slice))
+                    else:
+                        ok = False
+        if not ok:
+            continue
+
+        def flat_index(a, b):
+            return ast.BinOp(left=ast.BinOp(left=copy.deepcopy(a), op=ast.Mult(), right=ast.Name(id=nc.id, ctx=ast.Load())), op=ast.Add(), right=copy.deepcopy(b))
+        for node, a, b in cells + alias_cells:
+            node.value = ast.Name(id=m, ctx=ast.Load())
+            node.slice = flat_index(a, b)
+        init.value = ast.BinOp(left=ast.BinOp(left=ast.List(elts=[cell], ctx=ast.Load()), op=ast.Mult(), right=ast.Name(id=nr.id, ctx=ast.Load())),
+                               op=ast.Mult(), right=ast.Name(id=nc.id, ctx=ast.Load()))
+        drop = {id(asg) for asg, _, _ in aliases} | {id(fst)}
+
+        class Tr(ast.NodeTransformer):
+            def visit_Assign(self, n):
+                return None if id(n) in drop else self.generic_visit(n)
+
+            def visit_Name(self, n):
+                if n.id == fname:
+                    n.id = m
+                return n
+        func = Tr().visit(func)
+        for n in ast.walk(func):
+            for fld in ("body", "orelse", "finalbody"):
+                b = getattr(n, fld, None)
+                if isinstance(b, list) and not b and fld == "body" and isinstance(n, (ast.For, ast.While, ast.If, ast.With)):
+                    n.body = [ast.Pass()]
+        ast.fix_missing_locations(func)
+        return flatten_row_tables(func)       # (parents changed: start over for a further table)
+    return func
+
+
+def flatten_keyed_tables(func):
+    """Change of representation put back: a sparse table kept as a dict keyed by (row, column)
+
+        M = {}  ...  M[(a, b)] = M.get((a, b), c) + t  ...  if (a, b) in M: M[(a, b)] = g(M[(a, b)])  ...
+        F = [M.get((r, q), c) for r in range(NR) for q in range(NC)]
+
+    is the dense row-major table `M = [c] * NR * NC` with `M[a * NC + b] += t`, `M[a * NC + b] != c` for the membership test (an
+    entry exists iff something was added to the default), F being M itself.  Applied only when EVERY use of M has one of these
+    forms with one and the same default c, NR / NC are names bound once before M, and M is not used after F was cut from it."""
+    assigned, first_store = {}, {}
+    for i, st in enumerate(func.body):
+        for n in ast.walk(st):
+            if isinstance(n, ast.Name) and isinstance(n.ctx, (ast.Store, ast.Del)):
+                first_store.setdefault(n.id, i)
+    for n in ast.walk(func):
+        if isinstance(n, ast.Name) and isinstance(n.ctx, (ast.Store, ast.Del)):
+            assigned[n.id] = assigned.get(n.id, 0) + 1
+    params = {a.arg for a in ast.walk(func.args) if isinstance(a, ast.arg)}
+
+    def key2(k):
+        return (k.elts[0], k.elts[1]) if isinstance(k, ast.Tuple) and len(k.elts) == 2 and not any(isinstance(e, ast.Starred) for e in k.elts) else None
+
+    for fi, fst in enumerate(func.body):
+        if not (isinstance(fst, ast.Assign) and len(fst.targets) == 1 and isinstance(fst.targets[0], ast.Name) and isinstance(fst.value, ast.ListComp)
+                and len(fst.value.generators) == 2 and not any(g.ifs for g in fst.value.generators)):
+            continue
+        g0, g1 = fst.value.generators
+        rng = lambda g: g.iter.args[0] if (isinstance(g.iter, ast.Call) and isinstance(g.iter.func, ast.Name) and g.iter.func.id == "range"
+                                           and len(g.iter.args) == 1 and not g.iter.keywords and isinstance(g.target, ast.Name)) else None
+        nr, nc = rng(g0), rng(g1)
+        e = fst.value.elt
+        if nr is None or nc is None or not isinstance(nr, ast.Name) or not isinstance(nc, ast.Name):
+            continue
+        m = default = None
+        if isinstance(e, ast.Call) and isinstance(e.func, ast.Attribute) and e.func.attr == "get" and isinstance(e.func.value, ast.Name) and len(e.args) == 2 \
+                and not e.keywords and isinstance(e.args[1], ast.Constant):
+            m, k, default = e.func.value.id, key2(e.args[0]), e.args[1]
+        elif isinstance(e, ast.Subscript) and isinstance(e.value, ast.Name):
+            m, k = e.value.id, key2(e.slice)
+        else:
+            continue
+        if k is None or not all(isinstance(x, ast.Name) for x in k) or (k[0].id, k[1].id) != (g0.target.id, g1.target.id):
+            continue
+        fname = fst.targets[0].id
+        inits = [(i, st) for i, st in enumerate(func.body[:fi]) if isinstance(st, ast.Assign) and len(st.targets) == 1 and isinstance(st.targets[0], ast.Name)
+                 and st.targets[0].id == m]
+        if len(inits) != 1 or assigned.get(m, 0) != 1 or assigned.get(fname, 0) != 1 or m in params:
+            continue
+        ii, init = inits[0]
+        iv = init.value
+        if isinstance(iv, ast.Dict) and not iv.keys or (isinstance(iv, ast.Call) and ast.unparse(iv.func) == "dict" and not iv.args and not iv.keywords):
+            pass
+        elif isinstance(iv, ast.Call) and ast.unparse(iv.func).split(".")[-1] == "defaultdict" and len(iv.args) == 1 and isinstance(iv.args[0], ast.Lambda) \
+                and not iv.args[0].args.args and isinstance(iv.args[0].body, ast.Constant):
+            if default is not None and default.value != iv.args[0].body.value:
+                continue
+            default = iv.args[0].body
+        else:
+            continue
+        if default is None:
+            continue
+        for nm in (nr.id, nc.id):
+            if not (nm in params or (assigned.get(nm, 0) == 1 and first_store.get(nm, 10 ** 9) < ii)):
+                default = None
+        if default is None:
+            continue
+        if any(isinstance(n, ast.Name) and n.id == m for st in func.body[fi + 1:] for n in ast.walk(st)) or \
+                any(isinstance(n, ast.Name) and n.id == fname for st in func.body[:fi] for n in ast.walk(st)):
+            continue
+        # classify every use of M between its initialisation and the flattening
+        parent = {}
+        for st in func.body[:fi]:
+            for n in ast.walk(st):
+                for ch in ast.iter_child_nodes(n):
+                    parent[id(ch)] = n
+        plan, ok = [], True
+
+        def flat(k_):
+            return ast.BinOp(left=ast.BinOp(left=copy.deepcopy(k_[0]), op=ast.Mult(), right=ast.Name(id=nc.id, ctx=ast.Load())), op=ast.Add(), right=copy.deepcopy(k_[1]))
+        for st in func.body[:fi]:
+            for u in [n for n in ast.walk(st) if isinstance(n, ast.Name) and n.id == m and n is not init.targets[0]]:
+                p1 = parent.get(id(u))
+                p2 = parent.get(id(p1)) if p1 is not None else None
+                if isinstance(p1, ast.Subscript) and p1.value is u and key2(p1.slice) is not None:
+                    plan.append(("sub", p1, key2(p1.slice)))
+                elif isinstance(p1, ast.Attribute) and p1.attr == "get" and isinstance(p2, ast.Call) and p2.func is p1 and len(p2.args) == 2 and not p2.keywords \
+                        and key2(p2.args[0]) is not None and isinstance(p2.args[1], ast.Constant) and p2.args[1].value == default.value:
+                    plan.append(("get", p2, key2(p2.args[0])))
+                elif isinstance(p1, ast.Compare) and len(p1.ops) == 1 and isinstance(p1.ops[0], (ast.In, ast.NotIn)) and p1.comparators[0] is u and key2(p1.left) is not None:
+                    plan.append(("in", p1, key2(p1.left)))
+                else:
+                    ok = False
+        if not ok or not plan:
+            continue
+        for kind, node, k_ in plan:
+            if kind == "sub":
+                node.slice = flat(k_)
+            elif kind == "get":
+                new = ast.Subscript(value=ast.Name(id=m, ctx=ast.Load()), slice=flat(k_), ctx=ast.Load())
+                par = parent[id(node)]
+                for fld, val in ast.iter_fields(par):
+                    if val is node:
+                        setattr(par, fld, new)
+                    elif isinstance(val, list):
+                        for j, x in enumerate(val):
+                            if x is node:
+                                val[j] = new
+            else:
+                negate = isinstance(node.ops[0], ast.NotIn)
+                node.left = ast.Subscript(value=ast.Name(id=m, ctx=ast.Load()), slice=flat(k_), ctx=ast.Load())
+                node.ops = [ast.Eq() if negate else ast.NotEq()]
+                node.comparators = [ast.Constant(value=default.value)]
+        init.value = ast.BinOp(left=ast.BinOp(left=ast.List(elts=[ast.Constant(value=default.value)], ctx=ast.Load()), op=ast.Mult(), right=ast.Name(id=nr.id, ctx=ast.Load())),
+                               op=ast.Mult(), right=ast.Name(id=nc.id, ctx=ast.Load()))
+        del func.body[fi]
+        func.body[fi:] = [_Rename({fname: m}).visit(b) for b in func.body[fi:]]
+        ast.fix_missing_locations(func)
+        return flatten_keyed_tables(func)
+    return func
+
+
+# ----------------------------------------------------------------------------------------------------------- copy coalescing
+
+def coalesce_copies(func):
+    """Copy coalescing at the top level of a function: `A = x` / `A, B = x, y` where the local x is not used afterwards and the name A
+    does not occur before, is the same program with x spelled A from the start (the copy statement disappears).  This is what is
+    left of `A, B = self._stage(..)` after the stage was inlined: the tables the stage built and returned are the caller's tables."""
+    params = {a.arg for a in ast.walk(func.args) if isinstance(a, ast.arg)}
+    changed = True
+    while changed:
+        changed = False
+        for i, st in enumerate(func.body):
+            if not (isinstance(st, ast.Assign) and len(st.targets) == 1):
+                continue
+            t, v = st.targets[0], st.value
+            if isinstance(t, ast.Name) and isinstance(v, ast.Name):
+                pairs = [(t.id, v.id)]
+            elif isinstance(t, (ast.Tuple, ast.List)) and isinstance(v, (ast.Tuple, ast.List)) and len(t.elts) == len(v.elts) \
+                    and all(isinstance(x, ast.Name) for x in list(t.elts) + list(v.elts)):
+                pairs = [(a.id, b.id) for a, b in zip(t.elts, v.elts)]
+            else:
+                continue
+            srcs, dsts = [b for _, b in pairs], [a for a, _ in pairs]
+            if len(set(srcs)) != len(srcs) or len(set(dsts)) != len(dsts) or set(srcs) & set(dsts) or set(srcs) & params:
+                continue
+            before = {n.id for b in func.body[:i] for n in ast.walk(b) if isinstance(n, ast.Name)} | \
+                     {n.name for b in func.body[:i] for n in ast.walk(b) if isinstance(n, (ast.FunctionDef, ast.ClassDef))}
+            after = {n.id for b in func.body[i + 1:] for n in ast.walk(b) if isinstance(n, ast.Name)}
+            if set(dsts) & (before | params) or set(srcs) & after or not set(srcs) <= before:
+                continue
+            if any(isinstance(n, (ast.Global, ast.Nonlocal)) for n in ast.walk(func)):
+                continue
+            ren = dict(zip(srcs, dsts))
+            func.body[:i] = [_Rename(ren).visit(b) for b in func.body[:i]]
+            del func.body[i]
+            changed = True
+            break
+    return func
+
+
 def normalize_function(func, tables: dict | None = None):
     """the local normalisations (no knowledge of other functions needed); `tables`: module-level literal tables (module_tables)"""
     try:
